@@ -19,8 +19,11 @@ def templates(cfg):
             if tp.name.startswith("c07.") and ("null_col" in tp.name or "int_float" in tp.name):
                 continue  # known finding F14 (C07): ill-typed union
             allt.append(dataclasses.replace(tp, name="c12~" + tp.name, props=("C12",), prog2=None))
+    from . import temporal
+
+    allt += [dataclasses.replace(tp, name="c12~" + tp.name) for tp in temporal.templates_for("C12", cfg)]
     if cfg.tier != "quick":
         return allt
-    core = [t for t in allt if t.name.startswith(("c12~c03.", "c12~c17.", "c12~c04.none", "c12~c04.g.", "c12~c05.typed", "c12~c05.aggwin"))]
+    core = [t for t in allt if t.name.startswith(("c12~c03.", "c12~c17.", "c12~c12.tm.", "c12~c04.none", "c12~c04.g.", "c12~c05.typed", "c12~c05.aggwin"))]
     rest = [t for t in allt if t not in core]
     return core + rotated(rest, 80, cfg.seed)
